@@ -29,7 +29,7 @@ META = {
 }
 
 QUICK = [(("TA", dict(T=2)), 2), (("TB", dict(T=2)), 2), (("TC", dict(T=2, nw=3, nc=2)), 2), (("TD", dict(T=2, nw=3)), 1), (("TH", dict(T=3)), 3), (("TM", dict(T=2)), 1), (("TJ", dict(T=2)), 2), (("TF", dict(T=3)), 2), (("TP", dict(T=3)), 2)]
-THOROUGH = QUICK + [(("TC", dict(T=3, nw=3, nc=2)), 2), (("TD", dict(T=2, nw=3)), 2), (("TN", dict(T=2)), 2), (("TA", dict(T=3)), 2), (("TG", dict(T=2)), 1)]
+THOROUGH = QUICK + [(("TC", dict(T=3, nw=3, nc=2)), 2), (("TN", dict(T=2)), 2), (("TA", dict(T=3)), 2), (("TG", dict(T=2)), 1), (("TQ", dict(T=2)), 2)]
 
 
 def units(tier):
